@@ -1,7 +1,9 @@
 // Prelude: PLONK proof / circuit-data types, extracted mechanically; needs field_abs, hash, fri_types.
 
 // opaque stand-ins for types outside the verified subset (trait objects / Arc); never inspected by the verified functions
-pub struct GateRef<F: RichField + Extendable<D>, const D: usize>(pub Option<F>);
+// real code: GateRef(pub Arc<dyn Gate<F, D>>); GateObj stands for the `dyn Gate` value behind the Arc
+pub struct GateObj<F: RichField + Extendable<D>, const D: usize>(pub Option<F>);
+pub struct GateRef<F: RichField + Extendable<D>, const D: usize>(pub GateObj<F, D>);
 pub struct LookupTable(pub usize);
 //@item file=plonky2/src/gates/selectors.rs kind=struct name=SelectorsInfo
 //@item file=plonky2/src/plonk/circuit_data.rs kind=struct name=CircuitConfig
@@ -11,4 +13,4 @@ pub struct LookupTable(pub usize);
 //@item file=plonky2/src/plonk/proof.rs kind=struct name=Proof attr="verifier::reject_recursive_types(F);;verifier::reject_recursive_types(C)"
 //@item file=plonky2/src/plonk/proof.rs kind=struct name=ProofWithPublicInputs attr="verifier::reject_recursive_types(F);;verifier::reject_recursive_types(C)"
 //@item file=plonky2/src/plonk/proof.rs kind=struct name=ProofChallenges
-//@item file=plonky2/src/plonk/vars.rs kind=struct name=EvaluationVars
+//@item file=plonky2/src/plonk/vars.rs kind=struct name=EvaluationVars derive=Clone,Copy
